@@ -613,6 +613,7 @@ func (tr *FnTrans) instr(st *BState, in ssa.Instruction) {
 		tr.safety("nil", "assignment to entry in nil map", st, fmt.Sprintf("(not (= %s nil))", m.T), x.Pos())
 		mt := x.Map.Type().Underlying().(*types.Map)
 		k, v := tr.val(x.Key), tr.val(x.Value)
+		tr.keyCand(k)
 		ks, vs := tr.smt.sortOf(mt.Key()), tr.smt.sortOf(mt.Elem())
 		domS := fmt.Sprintf("(Array %s Bool)", ks)
 		valS := fmt.Sprintf("(Array %s %s)", ks, vs)
@@ -828,6 +829,19 @@ func (tr *FnTrans) index(st *BState, x *ssa.Index) {
 	}
 }
 
+// keyCand: a map key the code itself uses is a natural instantiation term for quantified facts about maps.
+func (tr *FnTrans) keyCand(k Val) {
+	if b, ok := k.Ty.Underlying().(*types.Basic); !ok || b.Info()&(types.IsString|types.IsInteger) == 0 {
+		return
+	}
+	for _, c := range tr.idxCands {
+		if c.T == k.T {
+			return
+		}
+	}
+	tr.idxCands = append(tr.idxCands, k)
+}
+
 func (tr *FnTrans) lookup(st *BState, x *ssa.Lookup) {
 	base := tr.val(x.X)
 	if isStringType(x.X.Type()) {
@@ -839,6 +853,7 @@ func (tr *FnTrans) lookup(st *BState, x *ssa.Lookup) {
 	// map lookup: abstract, but a function of (map state, key) so repeated lookups agree
 	mt := x.X.Type().Underlying().(*types.Map)
 	key := tr.val(x.Index)
+	tr.keyCand(key)
 	ks, vs := tr.smt.sortOf(mt.Key()), tr.smt.sortOf(mt.Elem())
 	domS := fmt.Sprintf("(Array %s Bool)", ks)
 	valS := fmt.Sprintf("(Array %s %s)", ks, vs)
@@ -1938,7 +1953,29 @@ func (tr *FnTrans) builtin(st *BState, ci ssa.CallInstruction, b *ssa.Builtin) V
 		et := dst.Ty.Underlying().(*types.Slice).Elem()
 		tr.copyCells(st, et, dst, src, n)
 		return Val{T: n, Ty: intT}
-	case "delete", "print", "println", "clear":
+	case "print", "println":
+		return Val{}
+	case "delete":
+		m, k := args[0], args[1]
+		mt := m.Ty.Underlying().(*types.Map)
+		ks := tr.smt.sortOf(mt.Key())
+		domS := fmt.Sprintf("(Array %s Bool)", ks)
+		cd := st.heap.lookup(domS)
+		tr.keyCand(k)
+		// delete on a nil map is a no-op
+		st.heap.set(domS, tr.smt.define("Hdom", st.heap.arraySort(domS), fmt.Sprintf("(ite (= %s nil) %s (store %s %s (store (select %s %s) %s false)))", m.T, cd, cd, m.T, cd, m.T, k.T)))
+		return Val{}
+	case "clear":
+		if mt, ok := args[0].Ty.Underlying().(*types.Map); ok {
+			ks := tr.smt.sortOf(mt.Key())
+			domS := fmt.Sprintf("(Array %s Bool)", ks)
+			cd := st.heap.lookup(domS)
+			st.heap.set(domS, tr.smt.define("Hdom", st.heap.arraySort(domS), fmt.Sprintf("(ite (= %s nil) %s (store %s %s ((as const %s) false)))", args[0].T, cd, cd, args[0].T, domS)))
+			return Val{}
+		}
+		// clear of a slice: the element cells are overwritten; not modelled precisely
+		tr.abstracted["clear(slice): all memory havoced"]++
+		st.heap = tr.newRoot()
 		return Val{}
 	case "panic":
 		if !(tr.c != nil && tr.c.MayPanic) {
